@@ -1012,6 +1012,8 @@ fn main() {
     }
     }
     report.count_n("rounds", rounds as u64);
+    let inf = report.histogram.get("values.in_family").copied().unwrap_or(0);
+    report.histogram.insert("pct_values_in_family(round trip oracle applies)".into(), inf * 100 / report.evaluations.max(1));
     report.rule = "a case is (Rust type of the zoo, generated value); distinct by (type, value); every case serialises the value with the real ValueSerializer and reads it back through the three entry points, so every case exercises the bridge (non-trivial); types outside the family (option / unit directly inside Option, unrepresentable keys) are run for correspondence, refusal and absence of panics".into();
     report.write(&out_path());
 }
